@@ -36,6 +36,7 @@ func cmdVerify(args []string) {
 	keep := fs.String("keep", "", "directory to keep queries in")
 	only := fs.String("only", "", "substring filter on obligation names")
 	uncon := fs.Bool("unconstrained", false, "ignore requires")
+	also := fs.Bool("also", false, "verify against the 'also' contract")
 	verbose := fs.Bool("v", false, "verbose")
 	fs.Parse(args)
 	start := time.Now()
@@ -66,7 +67,7 @@ func cmdVerify(args []string) {
 				os.Exit(2)
 			}
 			full = f2
-			u = eng.VerifyFunction(fn, VerifyOpts{IgnoreRequires: *uncon})
+			u = eng.VerifyFunction(fn, VerifyOpts{IgnoreRequires: *uncon, Also: *also})
 		}
 		fmt.Printf("== %s: %d obligations generated in %.2fs, %d asserts, %d decls\n", full, len(u.obls), time.Since(t0).Seconds(), len(u.asserts), len(u.W.decls))
 		for _, e := range u.errs {
